@@ -115,6 +115,8 @@ func (p *poller) addDialer(c *Conn) error {
 			fd,
 			len(p.g.connsUnix),
 		)
+		// DialAsync returns this error itself.
+		c.onConnected = nil
 		_ = c.closeWithError(err)
 		return err
 	}
@@ -124,6 +126,8 @@ func (p *poller) addDialer(c *Conn) error {
 	err := p.addReadWrite(fd)
 	if err != nil {
 		p.g.connsUnix[fd] = nil
+		// DialAsync returns this error itself.
+		c.onConnected = nil
 		_ = c.closeWithError(err)
 	}
 	return err
@@ -268,13 +272,7 @@ func (p *poller) readWriteLoop() {
 						if c.onConnected == nil {
 							_ = c.flush()
 						} else {
-							c.onConnected(c, nil)
-							c.onConnected = nil
-							// the callback may have left data to be
-							// flushed: resetRead keeps the writing event then.
-							c.mux.Lock()
-							c.resetRead()
-							c.mux.Unlock()
+							c.dialed()
 						}
 					}
 
